@@ -9,6 +9,11 @@ for d,_,fs in os.walk(root):
     for f in fs:
         if f.endswith('.go'):
             src=os.path.join(d,f); rep['/repo/'+os.path.relpath(src,root)]=src
+import subprocess
+gen='/verif/.work/vloop_dispatch_gen_verif.go'
+if os.path.exists(gen): os.remove(gen)
+subprocess.run(['python3','/verif/bin/gen_dispatch.py',gen])
+if os.path.exists(gen): rep['/repo/torrent/vloop_dispatch_gen_verif.go']=gen
 json.dump({'Replace':rep}, open('/verif/.work/overlay.json','w'))
 PY
 cd /repo && go1.26 build -tags verif -overlay /verif/.work/overlay.json -o /verif/.work/rainverif ./verifhook/cmd/rainverif
